@@ -15,6 +15,7 @@
 //   nestR / nestU  Root<0; idle 1; Random|Utilitarian<2; leaf 3; Composite<4;5,6>; Resumable<7;8,9>;
 //                       Orthogonal<10; 11, Utilitarian<12;13,14>>; Utilitarian<15;16,17>; Random<18;19,20>>>
 //   orthoC         Root<0; idle 1; Composite<2; leaf 3; Orthogonal<4; Random<5;6,7,8>, Utilitarian<9;10,11,12>, 13, 14>>>
+//   orthoL         Root<0; idle 1; Utilitarian<2; leaf 3; Orthogonal<4; 5, Composite<6;7,8>>; Orthogonal<9; Utilitarian<10;11,12>, Resumable<13;14,15>>; 16>>
 // Only headed regions with user-defined heads.
 //
 // Oracles
@@ -117,8 +118,16 @@ template <> struct Def<6> { static const char* name() { return "orthoC"; }
 					   Rg<RANDOM, 5, Lf<6>, Lf<7>, Lf<8>>,
 					   Rg<UTILITARIAN, 9, Lf<10>, Lf<11>, Lf<12>>,
 					   Lf<13>, Lf<14>>>>; };
-static const int NMACH = 7;
-static const int MID_NESTR = 4, MID_NESTU = 5, MID_ORTHOC = 6;
+// orthogonal regions whose LAST sub-state is a region that is not utilitarian (its change-strategy pick differs from its utilize pick)
+template <> struct Def<7> { static const char* name() { return "orthoL"; }
+	using D = Rg<COMPOSITE, 0, Lf<1>,
+				 Rg<UTILITARIAN, 2,
+					Lf<3>,
+					Rg<ORTHO, 4, Lf<5>, Rg<COMPOSITE, 6, Lf<7>, Lf<8>>>,
+					Rg<ORTHO, 9, Rg<UTILITARIAN, 10, Lf<11>, Lf<12>>, Rg<RESUMABLE, 13, Lf<14>, Lf<15>>>,
+					Lf<16>>>; };
+static const int NMACH = 8;
+static const int MID_NESTR = 4, MID_NESTU = 5, MID_ORTHOC = 6, MID_ORTHOL = 7;
 
 template <int MID> using FsmOf = typename ToRoot<MID, typename Def<MID>::D>::type;
 
@@ -421,10 +430,10 @@ struct Engine {
 	uint64_t exactCases = 0, roundingCases = 0, utilizeCases = 0, randomCases = 0, sequenceRequests = 0;
 	uint64_t fallOff = 0, fallOffR23 = 0, fallOffR24 = 0, fallOffOther = 0;
 	uint64_t roundingNeighbourAccepted = 0, permutationAccepted = 0, drawsDifferFromModel = 0;
-	uint64_t perMachine[NMACH] = {0, 0, 0, 0, 0, 0, 0};
+	uint64_t perMachine[NMACH] = {0, 0, 0, 0, 0, 0, 0, 0};
 	std::vector<std::string> samples;
 	bool sampleFlag[NFLAG] = {false, false, false, false, false};
-	bool sampleMach[NMACH] = {false, false, false, false, false, false, false};
+	bool sampleMach[NMACH] = {false, false, false, false, false, false, false, false};
 	std::vector<uint64_t> hashes;  // of every fresh case: distinctness is measured, not assumed
 	bool keepHashes = true, hashesComplete = true;
 	static constexpr size_t MAX_HASHES = 200000000;
@@ -1153,6 +1162,9 @@ static void nested(Engine& e, const Tier& tier) {
 		{MID_ORTHOC, 4, UTILIZE, false},  {MID_ORTHOC, 4, RANDOMIZE, false}, {MID_ORTHOC, 4, CHANGE, false},
 		{MID_ORTHOC, 5, RANDOMIZE, true}, {MID_ORTHOC, 5, CHANGE, true},     {MID_ORTHOC, 5, UTILIZE, true},
 		{MID_ORTHOC, 9, UTILIZE, true},   {MID_ORTHOC, 9, CHANGE, true},     {MID_ORTHOC, 9, RANDOMIZE, true},
+		// orthogonal candidates whose last sub-state is a composite / resumable region
+		{MID_ORTHOL, 2, UTILIZE, false},  {MID_ORTHOL, 2, CHANGE, false},    {MID_ORTHOL, 2, RANDOMIZE, false},
+		{MID_ORTHOL, 4, UTILIZE, false},  {MID_ORTHOL, 9, UTILIZE, false},
 	};
 	for (const TK& tk : TKS) {
 		const Tree& t = e.mach[tk.mid].tree;
@@ -1225,7 +1237,7 @@ int main(int argc, char** argv) {
 	const std::string mode = argc > 1 ? argv[1] : "quick";
 	Engine* ep = new Engine();
 	Engine& e = *ep;
-	initMachine<0>(e); initMachine<1>(e); initMachine<2>(e); initMachine<3>(e); initMachine<4>(e); initMachine<5>(e); initMachine<6>(e);
+	initMachine<0>(e); initMachine<1>(e); initMachine<2>(e); initMachine<3>(e); initMachine<4>(e); initMachine<5>(e); initMachine<6>(e); initMachine<7>(e);
 	vt::rep().maxPerFingerprint = 2;
 	if (mode == "replay") return replay(e, argc, argv);
 
